@@ -377,9 +377,11 @@ fn gen_doc(rng: &mut impl Rng) -> Vec<Value> {
         for i in 0..rng.gen_range(1..3) {
             let dref = refs_used[rng.gen_range(0..refs_used.len())];
             let range = rng.gen_bool(0.4);
-            let allowed_src: Vec<i64> = if range { vec![1, nmod as i64 + 1] } else { let mut v = vec![dref]; if rng.gen_bool(0.4) { v.push(77); } v };
+            // a range may also be degenerate ("2-2": exactly one module), S79
+            let one = range && rng.gen_bool(0.35);
+            let allowed_src: Vec<i64> = if one { vec![dref, dref] } else if range { vec![1, nmod as i64 + 1] } else { let mut v = vec![dref]; if rng.gen_bool(0.4) { v.push(77); } v };
             // what the file states: the modules of the range / set that exist, in range / listing order
-            let allowed: Vec<i64> = if range { (1..=nmod as i64 + 1).filter(|r| refs_used.contains(r)).collect() } else { allowed_src.iter().cloned().filter(|r| refs_used.contains(r)).collect() };
+            let allowed: Vec<i64> = if one { vec![dref] } else if range { (1..=nmod as i64 + 1).filter(|r| refs_used.contains(r)).collect() } else { allowed_src.iter().cloned().filter(|r| refs_used.contains(r)).collect() };
             list.push(json!({"number":i + 1,"name":format!("S{}", i),"default":dref,"range":range,"allowed_src":allowed_src,"allowed":allowed}));
         }
         d.push(json!({"s":"slots","list":list}));
